@@ -345,6 +345,38 @@ def held_values(m):
     return out
 
 
+def input_marks(m):
+    """Every key marked as input in any cells (whether or not a value is held for it): part of the mutable
+    state, so it must be part of the canonical state."""
+    out = []
+    for s in walk_spaces(m):
+        sp = space_path(s)
+        for n, c in s.cells.items():
+            for k in c._impl.input_keys:
+                out.append([sp + "." + n, json.dumps(render(k))])
+    return sorted(out)
+
+
+def lazy_bits(m):
+    """Freshness flags of the lazily refreshed objects (namespaces, bound functions): hidden mutable state."""
+    out = []
+    for s in walk_spaces(m):
+        sp = space_path(s)
+        impl = s._impl
+        bits = []
+        for attr in ("_namespace", "_cells", "_refs", "_own_refs", "_named_spaces"):
+            o = getattr(impl, attr, None)
+            bits.append(int(bool(getattr(o, "is_fresh", True))))
+        af = getattr(impl, "altfunc", None)
+        bits.append(-1 if af is None else int(bool(af.is_fresh)))
+        out.append([sp, bits])
+        for n, c in s.cells.items():
+            af = getattr(c._impl, "altfunc", None)
+            out.append([sp + "." + n, -1 if af is None else int(bool(af.is_fresh)),
+                        int(af is not None and af.altfunc is not None)])
+    return sorted(out, key=repr)
+
+
 def graph_state(m):
     tg = m._impl.tracegraph
     rg = m._impl.refgraph
@@ -370,6 +402,8 @@ def session_canon(extra=None, with_graph=True):
         md = describe_model(m, with_values=False, with_items=True)
         md["held"] = sorted([list(k) + list(v) for k, v in safe(lambda: held_values(m)).items()], key=repr) \
             if not isinstance(safe(lambda: held_values(m)), str) else "BROKEN"
+        md["input_marks"] = safe(lambda: input_marks(m))
+        md["lazy"] = safe(lambda: lazy_bits(m))
         if with_graph:
             md["graph"] = safe(lambda: graph_state(m))
         d["models"][name] = md
